@@ -40,16 +40,16 @@ Section Dispersion.
 
   (* compute_pole_coefficients_per_axis, one (pole, axis): None = ValueError (omega_0 dt >= 2 on an active axis);
      w0dt_ge2 is the float comparison omega_0*dt >= 2, evaluated on squares: omega_0^2 dt^2 >= 4 *)
+  Definition coeffs_raw (p : pole) (dt : F) : F * F * F * F :=
+    let gdt := gam p * dt in
+    let denom := 1 + gdt / f2' in
+    ((f2' - w0sq p * (dt * dt)) / denom,
+     - ((1 - gdt / f2') / denom),
+     (ca p * (dt * dt) - cb p * dt) / denom,
+     (cb p * dt) / denom).
   Definition coeffs (p : pole) (dt : F) : option (F * F * F * F) :=
     let active := negb (feqb (ca p) 0) || negb (feqb (cb p) 0) in
-    if active && fleb K (f2' * f2') (w0sq p * (dt * dt)) then None
-    else
-      let gdt := gam p * dt in
-      let denom := 1 + gdt / f2' in
-      Some ((f2' - w0sq p * (dt * dt)) / denom,
-            - ((1 - gdt / f2') / denom),
-            (ca p * (dt * dt) - cb p * dt) / denom,
-            (cb p * dt) / denom).
+    if active && fleb K (f2' * f2') (w0sq p * (dt * dt)) then None else Some (coeffs_raw p dt).
   (* compute_pole_coefficients_tensor, entry (i,j) of an oriented pole: c3 = (K dt^2 / D) u_i u_j, c4 = 0 *)
   Definition coeffs_oriented (p : pole) (dt ui uj : F) : option (F * F * F * F) :=
     match coeffs p dt with
